@@ -37,6 +37,8 @@ def _arg_candidates(plan):
                     p = copy.deepcopy(plan)
                     p["steps"][si]["args"][ai] = c
                     yield p
+        if s.get("role"):
+            continue        # structural keyword arguments (e.g. padding=True of a final piece) stay
         for k in sorted(s.get("kw", {})):
             p = copy.deepcopy(plan)
             del p["steps"][si]["kw"][k]
